@@ -11,3 +11,7 @@ package push
 //@ use casketfile/contracts_verif.go:dispenser_api
 //@ use @verif/specs/stdlib.spec:stdlib
 //@ use @verif/specs/stdlib.spec:casket_api
+
+//@ unit link_header_sweep props=C19 files=link_parser.go,handler.go nilchecks=on nonnil_params=on filter=`.`
+//@ // Link headers come from backends: zero-annotation safety sweep of the parser and of the push handler's use of it
+//@ use @verif/specs/stdlib.spec:stdlib
